@@ -79,6 +79,19 @@ func c18Stored(r *ev.Run) {
 					if lrows != nil && ri < len(lrows) && len(lrows) == len(rowsAll) {
 						// the rowid column leads SQLite's dump of rowid tables
 						lv := lrows[ri][len(lrows[ri])-len(row)+c]
+						// text and blobs reach Scan byte for byte (SQLite does not validate or normalise text)
+						switch x := lv.(type) {
+						case string:
+							var b []byte
+							if err := row.Scan(c18Skip(c, &b)...); err == nil && string(b) != x {
+								r.Violation("C18:stored-bytes:text", fmt.Sprintf("%s.%s of %s, row %d: Scan into []byte gives %q, SQLite stores the text %q", tn, cols[c], sc.Name, ri, b, x), art)
+							}
+						case []byte:
+							var b []byte
+							if err := row.Scan(c18Skip(c, &b)...); err == nil && string(b) != string(x) {
+								r.Violation("C18:stored-bytes:blob", fmt.Sprintf("%s.%s of %s, row %d: Scan into []byte gives %x, SQLite stores the blob %x", tn, cols[c], sc.Name, ri, b, x), art)
+							}
+						}
 						if (lv == nil) != (row[c] == nil) {
 							r.Violation("C18:stored-null", fmt.Sprintf("%s.%s of %s, row %d: the row holds %s, SQLite stores %s (a stored NULL scans to the zero value, a missing column to its default)", tn, cols[c], sc.Name, ri, VS(row[c]), VS(lv)), art)
 						}
@@ -114,4 +127,14 @@ func c18Stored(r *ev.Run) {
 	}
 	r.Set("stored_cells", cells)
 	r.Set("stored_tables", tables)
+}
+
+// c18Skip: Scan arguments that skip the first c columns and scan column c into dst
+func c18Skip(c int, dst interface{}) []interface{} {
+	args := make([]interface{}, c+1)
+	for i := 0; i < c; i++ {
+		args[i] = nil
+	}
+	args[c] = dst
+	return args
 }
